@@ -8,4 +8,40 @@ def run(ctx):
                 "than its maximum, create/receive succeed iff held < max (and a register is available for create), freed capacity is reusable, "
                 "two-qubit gates are never refused for capacity; distinct = distinct (capacities, operation, dump)")
     netprop.run_property(ctx, "C07", ["capacity", "capacity", "merge"], 1500 if t else 150, 30 if t else 24,
-                         scenarios=scen.capacity() + scen.register_limit() + scen.big_merge(), own_props=["C07"])
+                         scenarios=scen.capacity() + scen.register_limit() + scen.big_merge(), own_props=["C07"],
+                         extra=concurrent_arrivals)
+
+
+def concurrent_arrivals(ctx, env0, runners):
+    """`with concurrent arrivals`: creations / arrivals racing for the last free slot of a node under seeded schedules over the real PB
+    (scheduler harness of C03/C04): whatever the interleaving, the node never ends up holding more than its maximum, and exactly as many
+    requests succeed as there were free slots"""
+    import logging
+    import conc
+    import net_sync as N
+    from props import concprop
+    logging.disable(logging.CRITICAL)
+    env = N.setup()
+    conc.install(env)
+    scns = [s for s in concprop.fixed_scenarios() if "free slot" in s["name"]]
+    per = 40 if ctx.tier == "thorough" else 10
+    bad = None
+    for scn in scns:
+        for _ in range(per):
+            seed = ctx.rng.randrange(1 << 30)
+            res = conc.run_concurrent(env, scn, seed=seed, p_tick=ctx.rng.choice([0.0, 0.1, 0.3]), p_idle=ctx.rng.choice([0.0, 0.2]))
+            ctx.count("concurrent_arrival_schedules")
+            ctx.case(("conc", scn["name"], seed), nontrivial=True)
+            net = res.world.net
+            over = [(i, len(nd.virtQubits), nd.maxQubits) for i, nd in enumerate(net.nodes) if len(nd.virtQubits) > nd.maxQubits]
+            if over and (bad is None or len(res.schedule) < len(bad[2])):
+                bad = (scn, seed, list(res.schedule), over)
+            conc.dispose(res)
+    logging.disable(logging.NOTSET)
+    ctx.obligation("concurrent arrivals/creations for the last free slot never overfill a node (%d schedules over real PB)"
+                   % ctx.coverage.get("concurrent_arrival_schedules", 0), bad is None,
+                   "" if bad is None else "scenario %r seed %d: (node, held, max) = %r" % (bad[0]["name"], bad[1], bad[3]))
+    if bad is not None:
+        ctx.report("C07:concurrent-overfill", "node holds more qubits than its maximum after concurrent arrivals: (node, held, max) = %r" % (bad[3],),
+                   {"scenario": bad[0]["name"], "prefix": bad[0]["prefix"], "ops": bad[0]["ops"], "caps": bad[0]["caps"], "seed": bad[1],
+                    "schedule": bad[2]}, found_input=True)
